@@ -1,6 +1,6 @@
 (* Router.v — model of ombott/router/radidict.py (RadiDict) and
    ombott/router/radirouter.py (Route, RadiRouter) plus Ombott.to_route/handler
-   (ombott.py:121, 235).  Faithful to the tree WITH fixes F1 F2 F14 F15.
+   (ombott.py:121, 235).  Faithful to the tree WITH fixes F1 F2 F14 F15 F20.
 
    Deliberate departures from the code's shape (licensed by the correspondence
    check, see DESIGN 2.1):
@@ -503,9 +503,11 @@ Definition STAR : N := 42%N.
 Definition ends_star (s : str) : bool :=
   match rev s with c :: _ => N.eqb c STAR | [] => false end.
 
-(* RadiDict.remove; None = RadiDictError raised before any change *)
-Definition rd_remove (root : node) (pattern : str) (hooks_only : bool) : option node :=
-  let wild := ends_star pattern in
+(* RadiDict.remove; None = RadiDictError raised before any change.
+   exact = fix F20: a Route object (found by name) is removed exactly even if
+   its pattern ends with '*' *)
+Definition rd_remove (root : node) (pattern : str) (hooks_only exact : bool) : option node :=
+  let wild := ends_star pattern && negb exact in
   let p := if wild then removelast pattern else pattern in
   if wild && hooks_only then None
   else match rm_at true wild hooks_only root p with
@@ -644,7 +646,7 @@ Inductive rerr := RKeyError | RWildHooks.
 (* RadiRouter.remove(rule) with the rule already turned into its pattern
    (radirouter.py:266, route is a str) *)
 Definition rt_remove_pattern (R : router) (pattern : str) : router * option rerr :=
-  match rd_remove (tree R) pattern false with
+  match rd_remove (tree R) pattern false false with
   | None => (R, Some RWildHooks)
   | Some t' =>
     if ends_star pattern then
@@ -668,7 +670,7 @@ Definition rt_remove_name (R : router) (nme : str) : router * option rerr :=
     match pattern_of_rid R d with
     | None => (R, Some RKeyError)
     | Some pattern =>
-      match rd_remove (tree R) pattern false with
+      match rd_remove (tree R) pattern false true with
       | None => (mkRouter (tree R) (heap R) (routes R) named1 (hooks_idx R), Some RWildHooks)
       | Some t' =>
         match al_get (routes R) pattern with
@@ -730,7 +732,7 @@ Definition rt_add_hook (R : router) (pattern : str) (nm : list str) (flts : list
 
 (* RadiRouter.remove_hook (radirouter.py:348) *)
 Definition rt_remove_hook (R : router) (pattern : str) : router * option rerr :=
-  match rd_remove (tree R) pattern true with
+  match rd_remove (tree R) pattern true false with
   | None => (R, Some RWildHooks)
   | Some t' => (mkRouter t' (heap R) (routes R) (named R) (al_del (hooks_idx R) pattern), None)
   end.
